@@ -113,9 +113,14 @@ def check_split(funcs, name, ps, results, timeout):
               if rv.strip().endswith("FieldMulOpsSplitWord<W>>::MU")]
     os_ = [i for i in sorted(fn.blocks) if fn.blocks[i].term and fn.blocks[i].term[0] == "call"
            and fn.blocks[i].term[2].endswith("OverflowingSub>::overflowing_sub")]
-    if len(mu_pos) != 2 or not os_:
-        raise sx.NotEncodable(f"anchors of the split-word REDC not found (MU loads {mu_pos}, overflowing_sub blocks {os_})")
-    A1, A2, A3 = mu_pos[0], mu_pos[1], (os_[0], 0)
+    # the final subtraction starts right after `prod` has been assembled (the block a call returns into with `prod` as
+    # destination); fall back to the first overflowing_sub block
+    prod_local = fn.debug.get("prod")
+    after_prod = [fn.blocks[i].term[4] for i in sorted(fn.blocks) if fn.blocks[i].term and fn.blocks[i].term[0] == "call"
+                  and fn.blocks[i].term[1] == prod_local]
+    if len(mu_pos) != 2 or not (after_prod or os_):
+        raise sx.NotEncodable(f"anchors of the split-word REDC not found (MU loads {mu_pos}, prod assignment {after_prod}, overflowing_sub blocks {os_})")
+    A1, A2, A3 = mu_pos[0], mu_pos[1], ((after_prod[0], 0) if after_prod else (os_[0], 0))
     L = {n: local_of(fn, n) for n in ("z0", "z1", "z2", "z3", "x0", "x1", "y0", "y1", "p0", "p1", "w", "cc", "prod")}
     bind = {"W": W, "D": None, "H": H, "const": {"PRIME": P, "MU": ps["MU"], "SPLIT_MU": ps["MU"] % Bq, "R2": ps["R2"]}}
     Zmax = (R - 1) * (P - 1)
